@@ -31,7 +31,7 @@ def run(ctx):
     pool.add(table)
     ntable = len(table)
     # bodies with three return points: the return type is the ONE common type of all of them
-    names = ["int", "uint", "double", "bool", "string", "vobj", "vsub", "strlist", "intlist", "mode", "cint0", "cint", "cnull", "cempty", "cstring", "cdouble"]
+    names = ["int", "uint", "double", "bool", "string", "vobj", "vsub", "strlist", "intlist", "mode", "omode", "cint0", "cint", "cnull", "cempty", "cstring", "cdouble"]
     triples = [(x, y, z) for x in names for y in names for z in names]
     if ctx.tier != "thorough":
         rng.shuffle(triples)
